@@ -190,6 +190,43 @@ def gen_spec(rng, n_zones=None, allow_fed=True, ext=None, maxtime=None, grid=Tru
     return spec
 
 
+def gen_federation_with_region_asset_markets(rng, maxtime=None):
+    """One federation whose money and deposit markets are declared in a region while the issuer sits in the central
+    country; interest-bearing deposits held by a regional household; a non-zero interest rate from the start."""
+    spec = None
+    for _ in range(200):
+        cand = gen_spec(rng, n_zones=1, maxtime=maxtime)
+        z = cand['zones'][0]
+        if z['kind'] == 'federation' and z['gov']['deposits']:
+            spec = cand
+            break
+    if spec is None:
+        return gen_spec(rng, n_zones=1, maxtime=maxtime)
+    z = spec['zones'][0]
+    regs = [c for c in z['countries'] if c['role'] == 'region']
+    z['gov']['asset_markets_in'] = regs[0]['key']
+    z['gov']['r'] = [rng.choice([0.01, 0.02, 0.025, 0.04]) for _ in z['gov']['r']]
+    hh = regs[-1]['hh']
+    if not hh['portfolio']:
+        hh['portfolio'] = 'share'
+        hh['share'] = rng.choice([0.25, 0.5, 0.6])
+        hh['F0'] = hh['F0'] or float(rng.randint(40, 120))
+    return spec
+
+
+def ensure_cross_import(rng, spec):
+    """At least one market supplied from another currency zone (needs >= 2 zones and the external sector)."""
+    if len(spec['zones']) < 2 or not spec['ext'] or spec['imports']:
+        return spec
+    za, zb = spec['zones'][0], spec['zones'][1]
+    a = [c for c in za['countries'] if c['role'] != 'central'][0]
+    b = [c for c in zb['countries'] if c['role'] != 'central'][0]
+    if rng.random() < 0.5:
+        a, b = b, a
+    spec['imports'].append({'market': a['key'], 'supplier': b['key'], 'mu': rng.choice([0.05, 0.1, 0.2])})
+    return spec
+
+
 def add_param_chain(rng, spec, length=None):
     """A chain of scalar parameters running through several sectors: the first is a literal, each further one is the
     previous one (another sector's variable, addressed by its requested name) plus a constant.  Their time-zero values
